@@ -1,11 +1,11 @@
 """C05 for sentences the tree is the derivation tree with node operators applied (narrow)."""
-from .. import tab, noderules, skel
+from .. import tab, noderules, skel, lrules
 from . import common
 
 LEVEL = "other"
 EXHAUSTIVE = False
-EXPLANATION = ("Three structural clauses: (TAB) the elision-classification algebra of the semantic pass equals its path-set meaning on all 21 inputs "
-               "(exhaustive); (KINDSET) the node kinds each generated rule function can close are exactly the rule's own name, its renames and its "
+EXPLANATION = ("Structural clauses: (TAB) the elision-classification algebra of the semantic pass equals its path-set meaning on all 21 inputs "
+               "(exhaustive); (ELIDEUSE) each construct kind is classified with the operator of its own path structure (`[x]`, `x*` through opt, `|` and `/` through alt, concatenation through concat); (KINDSET) the node kinds each generated rule function can close are exactly the rule's own name, its renames and its "
                "creations as written in the grammar text (independent reader llwspec), every written rename/creation being producible; (FRESH) a "
                "close inside a loop uses a kind assigned in the same iteration; (MARKPOS) the mark of a node creation lies inside the rule's own node; (S19) an empty node created by a marker or a conditional elision behind a skipped token is pulled into the non-skip length, so it stays a child of its rule. Sampled grammars for the generated-code rules. That the tree equals "
                "the derivation tree (children in source order, marker/creation extents, actions once per visit) is not decided.")
@@ -13,6 +13,7 @@ EXPLANATION = ("Three structural clauses: (TAB) the elision-classification algeb
 
 def run(ctx, rep):
     tab.elision_tables(ctx, rep)
+    lrules.elision_use_rule(ctx, rep)
     noderules.kindset_rule(ctx, rep)
     noderules.fresh_rule(ctx, rep)
     noderules.markpos_rule(ctx, rep)
